@@ -107,6 +107,10 @@ struct Unit {
     os.flush();
     return s;
   }
+  std::string recName(const CXXRecordDecl *RD) {
+    if (isa<ClassTemplateSpecializationDecl>(RD)) return typeStr(Ctx->getRecordType(RD));
+    return qualName(RD);
+  }
   std::string funcId(const FunctionDecl *FD) {
     std::string s = qualName(FD);
     if (const TemplateArgumentList *TA = FD->getTemplateSpecializationArgs()) {
@@ -174,7 +178,7 @@ struct FnEmitter {
     if (auto *MD = dyn_cast<CXXMethodDecl>(FD)) {
       if (MD->isVirtual()) s += ",\"virt\":1";
       if (MD->isStatic()) s += ",\"static\":1";
-      s += ",\"rec\":" + q(U.qualName(MD->getParent()));
+      s += ",\"rec\":" + q(U.recName(MD->getParent()));
     }
     if (FD->isNoReturn()) s += ",\"noret\":1";
     unsigned l = 0;
@@ -393,7 +397,7 @@ struct Visitor : RecursiveASTVisitor<Visitor> {
       else if (isa<CXXDestructorDecl>(MD)) kind = "dtor";
       else if (isa<CXXConversionDecl>(MD)) kind = "conversion";
       if (MD->getParent()->isLambda()) kind = "lambda";
-      o += ",\"record\":" + q(U.qualName(MD->getParent()));
+      o += ",\"record\":" + q(U.recName(MD->getParent()));
       if (MD->isConst()) o += ",\"const\":1";
       if (MD->isStatic()) o += ",\"static\":1";
       if (MD->isVirtual()) {
@@ -539,7 +543,7 @@ struct Visitor : RecursiveASTVisitor<Visitor> {
     unsigned line = 0;
     if (!fileOk(RD->getLocation(), *U.recRe, file, line)) return true;
     if (!U.seenRec.insert(RD).second) return true;
-    std::string o = "{\"name\":" + q(U.qualName(RD)) + ",\"file\":" + q(file) + ",\"line\":" + std::to_string(line);
+    std::string o = "{\"name\":" + q(U.recName(RD)) + ",\"file\":" + q(file) + ",\"line\":" + std::to_string(line);
     o += ",\"kind\":" + q(RD->getKindName());
     if (isa<ClassTemplateSpecializationDecl>(RD)) o += ",\"tinst\":1";
     o += ",\"bases\":[";
@@ -548,7 +552,7 @@ struct Visitor : RecursiveASTVisitor<Visitor> {
       if (!first) o += ",";
       first = false;
       const CXXRecordDecl *BD = B.getType()->getAsCXXRecordDecl();
-      o += q(BD ? U.qualName(BD) : U.typeStr(B.getType()));
+      o += q(BD ? U.recName(BD) : U.typeStr(B.getType()));
     }
     o += "],\"fields\":[";
     first = true;
